@@ -28,12 +28,51 @@ class Recorder:
         return f
 
 
+class ReentrantDelegate:
+    """delegated-mode application (docs/api.rst "Delegated mode"): records every wormhole_* callback under the name of the
+    W.* call that produced it and, per `policy` {W-method: 'close' | 'send'}, calls back into the real _DelegatedWormhole
+    (w.close() / w.send_message()) synchronously from inside the callback"""
+    NAMES = {"wormhole_got_welcome": "got_welcome", "wormhole_got_code": "got_code", "wormhole_got_unverified_key": "got_key",
+             "wormhole_got_verifier": "got_verifier", "wormhole_got_versions": "got_versions",
+             "wormhole_got_message": "received", "wormhole_closed": "closed"}
+
+    def __init__(self, world, policy):
+        self.world = world
+        self.policy = dict(policy)
+        self.calls = []
+        self.reentered = []
+
+    def __getattr__(self, name):
+        if name not in self.NAMES:
+            raise AttributeError(name)
+        meth = self.NAMES[name]
+
+        def f(*a):
+            w = self.world
+            self.calls.append((meth, a))
+            w.on_w_call(meth, a)
+            act = self.policy.get(meth)
+            if meth == "closed" or act is None or w.api_closed:
+                return
+            self.reentered.append((meth, act))
+            if act == "send":
+                w.dw.send_message(b"re")
+            elif act == "close":
+                w.api_closed = True
+                w.dw.close()
+        return f
+
+
 class FakeWS:
-    def __init__(self):
+    def __init__(self, world=None):
         self.sent = []
+        self.world = world
 
     def sendMessage(self, payload, is_binary):
-        self.sent.append(json.loads(payload.decode("utf-8")))
+        m = json.loads(payload.decode("utf-8"))
+        self.sent.append(m)
+        if self.world is not None:
+            self.world.on_sent(m)
 
 
 class StubService:
@@ -62,7 +101,7 @@ class StubService:
 
 
 class World:
-    def __init__(self, defer_stop=False):
+    def __init__(self, defer_stop=False, policy=None):
         import wormhole._rendezvous as rz
         from wormhole._boss import Boss
         from wormhole.eventual import EventualQueue
@@ -70,15 +109,34 @@ class World:
         from wormhole.timing import DebugTiming
         self.defer_stop = defer_stop
         self.errors = []          # (kind, detail) observed internal failures
-        self.W = Recorder()
+        self.policy = policy
+        self.post = []            # (name, detail): violated event-order / close-down requirements (delegated runs)
+        self.claimed_maybe = self.opened_maybe = False
+        self.all_sent = []
+        if policy is None:
+            self.W = self.dw = Recorder()
+        else:
+            from wormhole.wormhole import _DelegatedWormhole
+            self.W = ReentrantDelegate(self, policy)
+            self.dw = _DelegatedWormhole(self.W)
         self.clock = task.Clock()
         orig = rz.internet.ClientService
         rz.internet.ClientService = StubService
         try:
-            self.boss = Boss(self.W, "side1", "ws://127.0.0.1:1/v1", "appid", {}, ("python", "v"), self.clock,
+            self.boss = Boss(self.dw, "side1", "ws://127.0.0.1:1/v1", "appid", {}, ("python", "v"), self.clock,
                              EventualQueue(self.clock), None, ImmediateJournal(), None, DebugTiming())
         finally:
             rz.internet.ClientService = orig
+        if policy is not None:
+            self.dw._set_boss(self.boss)
+        self.t_moods = []
+        if policy is not None:
+            t_close = self.boss._T.close
+
+            def spy_close(mood):         # what the Boss tells the Terminator (instance attribute: the class is untouched)
+                self.t_moods.append(mood)
+                return t_close(mood)
+            self.boss._T.close = spy_close
         self.rc = self.boss._RC
         self.rc._connector.world = self
         self.boss.start()
@@ -95,6 +153,32 @@ class World:
         self.welcome_rx = False
         self.open_sent = False
         self.bound = False
+
+    # ---- the requirements of C08 / C18 that the verifier states at the W / WS boundary, evaluated natively (delegated runs)
+    def on_sent(self, m):
+        t = m["type"]
+        self.all_sent.append(m)
+        if t == "claim":
+            self.claimed_maybe = True
+        if t == "open":
+            self.opened_maybe = True
+        if t == "close" and self.t_moods and m.get("mood") != self.t_moods[-1]:
+            self.post.append(("post:C08:mailbox-closed-with-boss-mood",
+                              f"server 'close' carries mood {m.get('mood')!r}, the Boss gave the Terminator {self.t_moods[-1]!r}"))
+
+    def on_w_call(self, meth, a):
+        seen = [n for n, _ in self.W.calls[:-1]]
+        if "closed" in seen:
+            self.post.append((f"post:C08:nothing-after-closed[{meth}]", f"W.{meth} after W.closed"))
+        if meth == "got_versions" and ("got_verifier" not in seen or "got_versions" in seen):
+            self.post.append(("post:C18:versions-after-verifier-once", f"W.got_versions after {seen}"))
+        if meth == "closed":
+            r = a[0]
+            normal = r == "happy" or type(r).__name__ in ("LonelyError", "WrongPasswordError", "ServerError", "WelcomeError")
+            if normal and (self.claimed_maybe or self.opened_maybe or not self.rc._stopping):
+                self.post.append(("post:C08:resources-freed-before-closed",
+                                  f"closed({r!r}) with claimed_maybe={self.claimed_maybe} opened_maybe={self.opened_maybe} "
+                                  f"rc_stopping={self.rc._stopping}"))
 
     # ---- bookkeeping of what the client sent on this connection
     def absorb(self):
@@ -160,7 +244,7 @@ def events():
     ev("helper.choose_words('purple-sausages')", hp, lambda w: w.helper.choose_words("purple-sausages"))
 
     def ws_open(w):
-        w.ws = FakeWS()
+        w.ws = FakeWS(w)
         w.seen = 0
         w.connected = True
         w.ever = True
@@ -215,6 +299,10 @@ def events():
     def reply(kind, **fields):
         def f(w):
             w.owed[kind_req[kind]] = False
+            if kind == "released":
+                w.claimed_maybe = False
+            if kind == "closed":
+                w.opened_maybe = False
             w.msg(type=kind, **fields)
         return f
     kind_req = {"claimed": "claim", "released": "release", "closed": "close", "allocated": "allocate", "nameplates": "list"}
@@ -238,6 +326,41 @@ def events():
            (lambda p, b: lambda w: w.msg(type="message", side="side2", phase=p, body=b, id="m"))(phase, body))
     ev("msg.message(side='sid\u00e9', phase='version')", om,
        lambda w: w.msg(type="message", side="sid\u00e9", phase="version", body="00", id="m"))
+    # ---- an honest peer (real SPAKE2 exchange, real encryption): needed to reach the key / verifier / versions / message
+    # callbacks of a delegated application
+    def peer_code(w):
+        for n, a in w.W.calls:
+            if n == "got_code":
+                return a[0]
+        return "4-purple-sausages"
+
+    def peer_pake(w):
+        from spake2 import SPAKE2_Symmetric
+        from wormhole.util import to_bytes, bytes_to_hexstr, dict_to_bytes
+        w.peer_sp = SPAKE2_Symmetric(to_bytes(peer_code(w)), idSymmetric=to_bytes(w.boss._appid))
+        body = dict_to_bytes({"pake_v1": bytes_to_hexstr(w.peer_sp.start())})
+        w.peer_pake_sent = True
+        w.msg(type="message", side="side2", phase="pake", body=bytes_to_hexstr(body), id="p1")
+    ev("peer.pake(honest)", lambda w: om(w) and not getattr(w, "peer_pake_sent", False), peer_pake)
+
+    def our_pake(w):
+        for m in w.all_sent:
+            if m["type"] == "add" and m["phase"] == "pake":
+                return m["body"]
+        return None
+
+    def peer_encrypted(phase, plaintext):
+        def f(w):
+            from wormhole.util import hexstr_to_bytes, bytes_to_hexstr, bytes_to_dict
+            from wormhole._key import derive_phase_key, encrypt_data
+            if getattr(w, "peer_key", None) is None:
+                w.peer_key = w.peer_sp.finish(hexstr_to_bytes(bytes_to_dict(hexstr_to_bytes(our_pake(w)))["pake_v1"]))
+            body = encrypt_data(derive_phase_key(w.peer_key, "side2", phase), plaintext)
+            w.msg(type="message", side="side2", phase=phase, body=bytes_to_hexstr(body), id="p-" + phase)
+        return f
+    pk = lambda w: om(w) and getattr(w, "peer_pake_sent", False) and our_pake(w) is not None     # noqa
+    ev("peer.version(honest)", pk, peer_encrypted("version", b'{"app_versions": {}}'))
+    ev("peer.message0(honest)", pk, peer_encrypted("0", b"hello"))
     ev("msg.error('crowded')", lambda w: cw(w) and w.bound, lambda w: w.msg(type="error", error="crowded", orig={}))
     ev("msg.ack", cw, lambda w: w.msg(type="ack", id="a"))
     return E
@@ -372,3 +495,110 @@ if __name__ == "__main__":
     ok, msg = search(rep)
     print(msg)
     print("REPRODUCED" if ok else "NOT-REPRODUCED")
+
+
+# ---------------------------------------------------------------------------------------------------------------------
+# delegated mode: the same search with a delegate that re-enters close() / send_message() from inside its callbacks
+
+HOSTILE = ("body=<", "sid\u00e9", "msg.ack", "completions", "msg.message(side='side2', phase='pake')")
+
+
+def signature(how, cls, msg, tb):
+    import re as _re
+    if cls == "NoTransition":
+        mo = _re.search(r"bound method (\w+)\.(\w+) of .*bound method \w+\.(\w+) of", msg.replace("\n", " "))
+        if mo:
+            return f"nodom:{mo.group(1)}.{mo.group(3)}@{mo.group(2)}"
+        mo = _re.findall(r"(\w+)\.(\w+) at ", msg)
+        return "nodom:" + "/".join(".".join(x) for x in mo)
+    if cls == "AssertionError":
+        mo = _re.findall(r'File "[^"]*/(\w+\.py)", line \d+, in (\w+)', tb)
+        return "assert@" + (":".join(mo[-1]) if mo else "?")
+    return f"exc:{cls}"
+
+
+def failures_of(w, fails, last_event):
+    out = []
+    for how, cls, msg, tb, mro in fails:
+        allowed = ()
+        for pre, al in API_ERRORS.items():
+            if last_event.startswith(pre):
+                allowed = al
+        if how == "raised" and cls in allowed:
+            continue
+        out.append((signature(how, cls, msg, tb), f"{how} {cls}: {msg[:200]}\n{tb}"))
+    for name, detail in (w.post if w is not None else []):
+        out.append((name, detail))
+    if w is not None:
+        for name, a in w.W.calls:
+            if name == "closed" and not (a[0] == "happy" or type(a[0]).__name__ in DOCUMENTED):
+                out.append(("post:C14:verdict-is-documented", f"closed({a[0]!r})"))
+    return out
+
+
+def run_history_delegated(names, policy, defer_stop=False):
+    global EVENTS
+    if EVENTS is None:
+        EVENTS = events()
+    table = {n: (l, d) for n, l, d in EVENTS}
+    fails = []
+
+    def observer(ev):
+        if ev.get("isError"):
+            f = ev.get("failure")
+            if f is not None:
+                fails.append(("logged", f.type.__name__, str(f.value)[:600], tb_tail(f), [c.__name__ for c in f.type.__mro__]))
+    txlog.addObserver(observer)
+    w = None
+    try:
+        w = World(defer_stop, policy)
+        for n in names:
+            legal, do = table[n]
+            if not legal(w):
+                return w, fails, False
+            try:
+                do(w)
+            except Exception as e:      # noqa
+                fails.append(("raised", type(e).__name__, str(e)[:600], "".join(traceback.format_tb(e.__traceback__)[-3:]),
+                              [c.__name__ for c in type(e).__mro__]))
+            w.clock.advance(0)
+            w.absorb()
+        return w, fails, True
+    finally:
+        txlog.removeObserver(observer)
+
+
+def search_delegated(policy, maxdepth=9, budget_s=120, defer_stops=(False, True), skip=HOSTILE):
+    """breadth-first over legal histories with the given re-entry policy; returns {signature: (history, defer_stop, detail)}
+    with the shortest history found for every distinct failure (the search does not continue beyond a failure)"""
+    global EVENTS
+    EVENTS = events()
+    names = [n for n, l, d in EVENTS if not any(s in n for s in skip)]
+    found = {}
+    t0 = time.time()
+    for defer_stop in defer_stops:
+        seen = set()
+        q = deque([[]])
+        while q and time.time() - t0 < budget_s * (1 + defer_stops.index(defer_stop)) / len(defer_stops):
+            h = q.popleft()
+            if len(h) >= maxdepth:
+                continue
+            for n in names:
+                h2 = h + [n]
+                w, fails, legal = run_history_delegated(h2, policy, defer_stop)
+                if not legal:
+                    continue
+                fl = failures_of(w, fails, n)
+                if fl:
+                    for sig, detail in fl:
+                        if sig not in found or len(found[sig][0]) > len(h2):
+                            found[sig] = (h2, defer_stop, detail, list(w.W.reentered))
+                    continue
+                fp = w.fingerprint() + (getattr(w, "peer_pake_sent", False), getattr(w, "peer_key", None) is not None,
+                                        tuple(sorted({c for c, _ in w.W.calls})), w.claimed_maybe, w.opened_maybe,
+                                        len(w.W.reentered))
+                if fp in seen:
+                    continue
+                seen.add(fp)
+                q.append(h2)
+    return found
